@@ -26,6 +26,10 @@ def run(tier, seed):
         for sc in campaign.build(rnd, profile, (n // 5 + 1) * (2 if profile in ('ns', 'forms') else 1), 0):
             top = sc.top
             pools = gen_selectors.pools_from_soup(top)
+            # the alias map differs from document to document while the TEXT of :--c2 stays the same: an alias means its body
+            # under the map it is used with
+            cust_body = rnd.choice(['p, div > span', 'p, div > span', 'span', 'div, i', 'input, p', ':not(p)', 'p:first-child, a'])
+            custom = {':--cust': cust_body, ':--c2': ':is(a, :--cust):not(.x)'}
             nsmap = rnd.choice(campaign.NSMAPS) if profile == 'ns' else rnd.choice([None, None, {'': gen_selectors.sv.css_match.NS_XHTML}])
             used_ns = sorted({e.namespace for e in top.find_all(True) if getattr(e, 'namespace', None)})
             if profile == 'ns' and used_ns and rnd.random() < 0.6:
@@ -45,6 +49,19 @@ def run(tier, seed):
                 continue
             order = {id(e): i for i, e in enumerate(universe)}
             elements_all = list(top.find_all(True))
+            try:
+                al = [('*|*:--cust', f'*|*:is({cust_body})'), ('*|*:--c2', f'*|*:is(a, {cust_body}):not(.x)'),
+                      ('*|*:not(:--c2)', f'*|*:not(:is(a, {cust_body}):not(.x))'), ('*|*:is(:--c2, :--cust)', f'*|*:is(:is(a, {cust_body}):not(.x), {cust_body})')]
+                for a_s, b_s in al:
+                    ga, gb = ids(sel(a_s)), ids(sel(b_s))
+                    ck.count(('law', 'alias = its body', profile, len(ga) > 0))
+                    if ga != gb:
+                        ck.violation(f'law "a custom alias means its body" fails: {a_s!r} and {b_s!r} select different elements',
+                                     {'law': 'alias = body', 'A': a_s, 'B': b_s, 'namespaces': nsmap, 'custom': custom,
+                                      'markup': matchcheck.markup_of(sc), 'tree': sc.label,
+                                      'selected': {'alias': matchcheck.paths_of(sc, sel(a_s)), 'body': matchcheck.paths_of(sc, sel(b_s))}})
+            except Exception:
+                ck.notes['skipped_alias_raise'] = ck.notes.get('skipped_alias_raise', 0) + 1
             for it in range(6):
                 A, B = sg.complex(1), sg.complex(1)
                 if profile == 'ns' and it < 3 and prefixes:
